@@ -38,6 +38,10 @@ CHECKS = [
       technique="deterministic simulation: issuer revocation history (revoke/unrevoke batches, publications, simulated time) with verifiers resolving possibly stale ledger versions and validating credentials; BTreeSet<u32> model per service per version",
       text="Seeded histories of revoke/unrevoke batches (sequential, clustered, random, multi-container indices, sizes up to 10^3 quick / 10^5 thorough) on 1-2 services of IOTA and did:sim documents; after every update the issuer's own document must decode to the model set and change exactly the requested indices; a verifier's resolved (possibly stale) version must decode to that version's model; credential validation must report Revoked exactly when the index is a member of the version used; legacy double-encoded endpoints must still decode.",
       note="Legacy endpoints are produced by re-encoding the library's own current endpoint string the way pre-#1291 publishers did. Membership is compared on all touched indices, neighbours (+-1, +-65536), samples of members and random indices, and by cardinality."),
+ dict(id="C12", engine="world", level="exploration", design="§4.4, §5 C12",
+      technique="deterministic simulation: status-list host with a write history and served versions over simulated time, verifiers checking credentials against possibly stale versions; bit-set model per list per version",
+      text="Seeded write histories (set/clear through set_credential_status, update() and the raw list; sequentially allocated adjacent indices, out-of-range indices, both purposes, minimum / non-multiple-of-8 / larger sizes); after every write the touched byte, its neighbour bytes and samples must read back as the model says, refused writes change nothing, out-of-range access is an error (never a panic), the served JSON and the encoded list round-trip; revocation lists are monotone over the served history and the API refuses the clear; check_status_with_status_list_2021 against a fetched (possibly stale, possibly mismatching) version reports Revoked/Suspended/Ok/InvalidStatus exactly as the model predicts in all three status-check modes.",
+      note="The exhaustive (byte value, offset, value) table of the quantifier is enumeration, not simulation; the run reaches the byte patterns that allocation histories produce."),
 ]
 
 def main():
